@@ -59,6 +59,8 @@ package linker
 //@ hashed isolated-hash C18: func=(*linkerContext).generateIsolatedHash ; in=linker ; sink=hashWriteLengthPrefixed:1,hashWriteUint32:1,Write:0 ; scenario=hash_placeholder_targets ; must=outputPiece.data>hashWriteLengthPrefixed,partRange.partIndexBegin,partRange.partIndexEnd,partRange.sourceIndex,PathTemplate.Data>hashWriteLengthPrefixed,Options.PublicPath>hashWriteLengthPrefixed,outputPiece.kind,outputPiece.index
 //@ hashed legal-comments C18: func=(*linkerContext).generateIsolatedHash ; in=linker ; sink=hashWriteLengthPrefixed:1,hashWriteUint32:1,Write:0 ; scenario=legal_comments_hash ; must=chunkInfo.externalLegalComments>hashWriteLengthPrefixed
 //@ unguarded visit-every-import C18: func=(*linkerContext).appendIsolatedHashesForImportedChunks ; in=linker ; site=call appendIsolatedHashesForImportedChunks ; allow=false:visited[chunkIndex]==visitedKey ; argpath=2:c.chunks[chunkIndex].crossChunkImports[*].chunkIndex
+// the prefix written before a byte string is that string's own length (so "a"+"bc" and "ab"+"c" hash differently)
+//@ flow length-prefix-is-the-length C18: func=hashWriteLengthPrefixed ; in=linker ; site=call hashWriteUint32 ; argpath=1:call len(bytes)
 //@ flow asset-path-is-relative C18: func=(*linkerContext).appendIsolatedHashesForImportedChunks ; in=linker ; site=call hashWriteLengthPrefixed ; argpath=1:call ReplaceAll(call Rel(c.fs,c.options.AbsOutputDir,*.InputFile.AdditionalFiles[*].AbsPath)#0,*
 
 // C08: the comparators above break ties on StableSourceIndex. That is deterministic only if the field holds the
@@ -251,3 +253,21 @@ package linker
 // that condition. Cross-file duplicate removal must compare the wrapped rules: an unconditional copy of a rule is
 // not a duplicate of a later copy that only applies under a condition.
 //@ flow dedupe-after-wrapping C12: func=(*linkerContext).generateChunkCSS ; in=linker ; site=call RemoveDeadRulesInPlace ; argpath=2:call wrapRulesWithConditions(*)#0
+
+// ----------------------------------------------------------------------------------------------
+// C18 / C16: "references between outputs resolve". breakOutputIntoPieces splits printed output at the unique-key
+// placeholders; every piece it produces must name an asset (file) or chunk that EXISTS, because
+// substituteFinalPaths and the hash closure index c.graph.Files / c.chunks with it unchecked.
+//@ func (*linkerContext).breakOutputIntoPieces
+//@   arith int
+//@   prop C18 C16
+//@   site piece-index-in-range: append requires each(
+//@       (elem.kind == outputPieceAssetIndex ==> int(elem.index) < len(c.graph.Files)) &&
+//@       (elem.kind == outputPieceChunkIndex ==> int(elem.index) < len(c.chunks)) &&
+//@       (elem.kind == outputPieceNone || elem.kind == outputPieceAssetIndex || elem.kind == outputPieceChunkIndex))
+
+// C18 / C07: substituting final paths. The text written in place of a placeholder is the final path of the VERY chunk
+// (or asset) the placeholder names, and the source-map shift recorded for it advances "before" by that same
+// chunk's unique key and "after" by the text actually written.
+//@ flow placeholder-resolves-to-its-target C18: func=(*linkerContext).substituteFinalPaths ; in=linker ; site=call AddString ; argpath=1:call modifyPath(c.chunks[*.pieces[*].index].finalRelPath) OR call modifyPath(call ReplaceAll(call Rel(*,c.graph.Files[*.pieces[*].index].InputFile.AdditionalFiles[0].AbsPath)#0,*))
+//@ flow shift-before-is-the-placeholder C18 C07: func=(*linkerContext).substituteFinalPaths ; in=linker ; site=call AdvanceString ; argpath=1:c.chunks[*.pieces[*].index].uniqueKey OR c.graph.Files[*.pieces[*].index].InputFile.UniqueKeyForAdditionalFile OR call modifyPath(*)
